@@ -228,6 +228,18 @@ HTTPRef(m, cfg) ==
        THEN "Y" ELSE "N"
 
 (***************************************************************************)
+(* TLS record framing (RFC 8446 5.1) in front of the ClientHello: a record *)
+(* that is not a handshake record (type 22) never matches; the hello is    *)
+(* produced by a real crypto/tls client; filters sni / alpn as in L4TLS.   *)
+(***************************************************************************)
+TLSMsgs == [kind : {"hello", "alert", "appdata", "sslv2", "http"}, sni : {"a.example.com", "b.example.com", ""}, alpn : {"none", "h2"}]
+TLSCfgs == [sni : {<<>>, <<"a.example.com">>}, alpn : {<<>>, <<"h2">>}]
+TLSRef(m, cfg) == IF m.kind # "hello" THEN "N"
+                  ELSE IF /\ (cfg.sni = <<>> \/ m.sni = "a.example.com")
+                          /\ (cfg.alpn = <<>> \/ m.alpn = "h2")
+                       THEN "Y" ELSE "N"
+
+(***************************************************************************)
 (* The vectors and their reference verdicts                                *)
 (***************************************************************************)
 Vec(p, n, c, m, t) == [proto |-> p, net |-> n, cfg |-> c, msg |-> m, trail |-> t]
@@ -247,6 +259,7 @@ Vectors(p) ==
                                                  c \in DNSCfgs, n \in {"tcp", "udp"}, t \in {0} }
     [] p = "rdp"      -> { Vec(p, "tcp", c, m, 0) : m \in { x \in RDPMsgs : Tier # "quick" \/ x.len # "minus1" }, c \in RDPCfgs }
     [] p = "http"     -> { Vec(p, "tcp", c, m, 0) : m \in HTTPMsgs, c \in HTTPCfgs }
+    [] p = "tls"      -> { Vec(p, "tcp", c, m, t) : m \in TLSMsgs, c \in TLSCfgs, t \in {0, 9} }
     [] OTHER -> {}
 
 Ref(v) ==
@@ -263,6 +276,7 @@ Ref(v) ==
     [] v.proto = "dns" -> DNSRef(v.msg, v.cfg, v.net)
     [] v.proto = "rdp" -> RDPRef(v.msg, v.cfg)
     [] v.proto = "http" -> HTTPRef(v.msg, v.cfg)
+    [] v.proto = "tls" -> TLSRef(v.msg, v.cfg)
     [] OTHER -> "?"
 
 \* stream protocols: the verdict-over-prefixes rules of C06 apply
